@@ -44,6 +44,18 @@ Entries ==
     [e |-> "PwHash::from_string+verify",           ovh |-> 0,  fam |-> "pwstr"],
     [e |-> "PwHash::from_string_with_defaults",    ovh |-> 0,  fam |-> "pwstr"],
     [e |-> "crypto_sign_ed25519_pk_to_curve25519", ovh |-> 0,  fam |-> "key"],
+    [e |-> "crypto_scalarmult (peer point)",                    ovh |-> 0, fam |-> "key"],
+    [e |-> "crypto_box_beforenm (peer key)",                    ovh |-> 0, fam |-> "key"],
+    [e |-> "crypto_box_easy (recipient key)",                   ovh |-> 0, fam |-> "key"],
+    [e |-> "crypto_box_seal (recipient key)",                   ovh |-> 0, fam |-> "key"],
+    [e |-> "crypto_kx_client_session_keys (server key)",        ovh |-> 0, fam |-> "key"],
+    [e |-> "crypto_kx_server_session_keys (client key)",        ovh |-> 0, fam |-> "key"],
+    [e |-> "Session::new_client (server key)",                  ovh |-> 0, fam |-> "key"],
+    [e |-> "DryocBox::encrypt (recipient key)",                 ovh |-> 0, fam |-> "key"],
+    [e |-> "DryocBox::seal (recipient key)",                    ovh |-> 0, fam |-> "key"],
+    [e |-> "crypto_sign_ed25519_sk_to_curve25519 (stored key)", ovh |-> 0, fam |-> "key"],
+    [e |-> "crypto_sign_detached (stored key)",                 ovh |-> 0, fam |-> "key"],
+    [e |-> "SigningKeyPair::from_secret_key (stored key)",      ovh |-> 0, fam |-> "key"],
     [e |-> "KeyPair::from_slices",                 ovh |-> 0,  fam |-> "key"],
     [e |-> "SigningKeyPair::from_slices",          ovh |-> 0,  fam |-> "key"],
     [e |-> "StackByteArray::try_from",             ovh |-> 0,  fam |-> "key"] }
